@@ -18,6 +18,7 @@ import (
 
 	fxcontract "github.com/functionx/fx-core/v8/contract"
 	fxtypes "github.com/functionx/fx-core/v8/types"
+	crosschaintypes "github.com/functionx/fx-core/v8/x/crosschain/types"
 	erc20types "github.com/functionx/fx-core/v8/x/erc20/types"
 
 	"verif/harness/chain"
@@ -304,6 +305,7 @@ func (r *c08Run) run() {
 	r.softFailProbe()
 	r.aliasClashProbe()
 	r.caseVariantProbe()
+	r.nativeAliasProbe()
 	if r.broken {
 		r.broken = false
 	}
@@ -776,6 +778,52 @@ func (r *c08Run) caseVariantProbe() {
 	}
 	if got := c.Balance(ctx, e.Caller.Acc(), base); !got.Equal(sdkmath.NewInt(1_000_000)) {
 		r.res.Violate("C08/case-variant-coin/round-trip", "after converting 1000000 %s to the ERC-20 and all of it back the holder owns %s", base, got)
+	}
+}
+
+// nativeAliasProbe: governance gives the native coin a bridge alias; one user locks FX for alias coins while
+// another wraps and unwraps WFX. The wrapper's escrow backs the WFX, the FX locked in the erc20 module backs
+// the alias coins, and neither is paid out of the other.
+func (r *c08Run) nativeAliasProbe() {
+	e, c := r.e, r.e.C
+	ctx := c.Branch()
+	alias := crosschaintypes.NewBridgeDenom(e.B.Name, fix.ExtAddr(e.B.Name, fix.TokenAddr(c.Cfg.Seed, "fx-alias", 0)))
+	if res := c.MsgOn(ctx, &erc20types.MsgUpdateDenomAlias{Authority: chain.GovAuthority(), Denom: fxtypes.DefaultDenom, Alias: alias}); !res.OK() {
+		r.logf("native alias probe: %s", res.ErrString())
+		r.res.Count("native_alias_refused", 1)
+		return
+	}
+	pair, ok := c.App.Erc20Keeper.GetTokenPair(ctx, fxtypes.DefaultDenom)
+	if !ok {
+		return
+	}
+	r.res.Count("native_alias_probes", 1)
+	mod := chain.ModuleAddr(erc20types.ModuleName)
+	locked0 := c.Balance(ctx, mod, fxtypes.DefaultDenom)
+	a, b := e.Caller, e.Other
+	fxc := func(n int64) sdk.Coin { return sdk.NewCoin(fxtypes.DefaultDenom, sdkmath.NewInt(n)) }
+	steps := []struct {
+		what string
+		msg  sdk.Msg
+	}{
+		{"wrap 5000", &erc20types.MsgConvertCoin{Coin: fxc(5000), Receiver: b.Hex().Hex(), Sender: b.Bech32()}},
+		{"lock 3000 for alias coins", &erc20types.MsgConvertDenom{Sender: a.Bech32(), Receiver: a.Bech32(), Coin: fxc(3000), Target: e.B.Name}},
+		{"unwrap 2000", &erc20types.MsgConvertERC20{ContractAddress: pair.Erc20Address, Amount: sdkmath.NewInt(2000), Receiver: b.Bech32(), Sender: b.Hex().Hex()}},
+		{"redeem 1000 alias coins", &erc20types.MsgConvertDenom{Sender: a.Bech32(), Receiver: a.Bech32(), Coin: sdk.NewCoin(alias, sdkmath.NewInt(1000)), Target: ""}},
+		{"unwrap 3000", &erc20types.MsgConvertERC20{ContractAddress: pair.Erc20Address, Amount: sdkmath.NewInt(3000), Receiver: b.Bech32(), Sender: b.Hex().Hex()}},
+		{"redeem 2000 alias coins", &erc20types.MsgConvertDenom{Sender: a.Bech32(), Receiver: a.Bech32(), Coin: sdk.NewCoin(alias, sdkmath.NewInt(2000)), Target: ""}},
+	}
+	for _, st := range steps {
+		res := c.MsgOn(ctx, st.msg)
+		what := fmt.Sprintf("native coin with alias: %s -> ok=%v %s", st.what, res.OK(), short(res.ErrString()))
+		r.logf(what)
+		if !res.OK() {
+			r.res.Violate("C08/native-alias/conversion-refused", "%s", what)
+		}
+		r.checkBooksOn(ctx, what)
+		if locked, sup := c.Balance(ctx, mod, fxtypes.DefaultDenom).Sub(locked0), c.Supply(ctx, alias); !locked.Equal(sup) {
+			r.res.Violate("C08/native-alias/alias-backing", "%s: the erc20 module locks %s FX for alias coins, the alias supply is %s", what, locked, sup)
+		}
 	}
 }
 
